@@ -65,6 +65,12 @@ type Runner struct {
 	// AttachOpts returns the attach options for the i-th attaching peer.
 	AttachOpts func(i int) []interface{}
 
+	// RecordCalls collects the storage events of every sync step (fault-free
+	// twin of a fault-enumeration case).
+	RecordCalls bool
+	Calls       map[int][]CallRec
+	cur         int
+
 	byID      map[string]*Peer
 	ctx       context.Context
 	ExFail    *Failure // failure raised from inside OnExchange
@@ -290,7 +296,23 @@ func (r *Runner) Step(s Step) *Failure {
 			return nil
 		}
 		r.log("c%d: %s", p.Idx, s.Op)
+		if r.RecordCalls {
+			return r.faultySync(p, s.Op == "pushonly", 0, true)
+		}
 		return r.sync(p, s.Op == "pushonly")
+	case s.Op == "faultsync" || s.Op == "faultpushonly":
+		// A = index of the storage event that fails; C == 1: the response is lost
+		// instead; B == 1: no immediate retry (the next sync of the program retries).
+		if !p.Attached {
+			r.log("c%d: %s (skipped: detached)", p.Idx, s.Op)
+			return nil
+		}
+		ev := s.A
+		if s.C == 1 {
+			ev = -1
+		}
+		r.log("c%d: %s with a fault at storage event %d", p.Idx, s.Op[5:], ev)
+		return r.faultySync(p, s.Op == "faultpushonly", ev, false, s.B == 1)
 	case s.Op == "losesync":
 		// The server handles the request completely but the response is
 		// lost; the client keeps its local changes and checkpoint and will
@@ -548,6 +570,7 @@ type Result struct {
 	Contents []string // per round: content after each quiescent round
 	Ordered  bool
 	Peers    int
+	Calls    map[int][]CallRec
 }
 
 // RunOpts selects optional oracles of Run.
@@ -560,6 +583,7 @@ type RunOpts struct {
 	OnEdit      func(r *Runner, p *Peer)
 	AfterQuiesc func(r *Runner) *Failure
 	AttachOpts  func(i int) []interface{}
+	RecordCalls bool
 }
 
 // Run executes the whole program: start, steps, quiescent round, convergence
@@ -575,14 +599,18 @@ func Run(p Program, o RunOpts) (res Result) {
 		res.Ev = r.Ev
 		res.Ordered = r.ActorsOrdered()
 		res.Peers = len(r.Peers)
+		res.Calls = r.Calls
 		r.Close()
 	}()
 	if f := r.Start(); f != nil {
 		res.Fail = f
 		return
 	}
+	r.RecordCalls = o.RecordCalls
+	base := 0
 	phase := func(steps []Step) *Failure {
-		for _, s := range steps {
+		for i, s := range steps {
+			r.cur = base + i
 			if f := r.Step(s); f != nil {
 				return f
 			}
@@ -606,6 +634,7 @@ func Run(p Program, o RunOpts) (res Result) {
 		return
 	}
 	if len(p.Tail) > 0 {
+		base = len(p.Steps)
 		r.log("-- tail")
 		if f := phase(p.Tail); f != nil {
 			f.Kind = "TAIL-" + f.Kind
